@@ -771,19 +771,19 @@ text, the stack test, `ENDMDL`, the carriable-bond filter (four disjuncts, heter
 normalisation, CONECT layout; and the model at those boundaries -/
 theorem C07_gen_writer_logic :
     BiotiteModel.Gen.C07Logic.recordNames = ["HETATM", "ATOM"] ∧
-    BiotiteModel.Gen.C07Logic.atomWrap = ["id>0", "(id-1)%_PDB_MAX_ATOMS+1", "id"] ∧
-    BiotiteModel.Gen.C07Logic.resWrap = ["id>0", "(id-1)%_PDB_MAX_RESIDUES+1", "id"] ∧
+    BiotiteModel.Gen.C07Logic.atomWrap = ["id>0", "(id-1)%99999+1", "id"] ∧
+    BiotiteModel.Gen.C07Logic.resWrap = ["id>0", "(id-1)%9999+1", "id"] ∧
     BiotiteModel.Gen.C07Logic.defaultTexts = [" ", "  0.00", "  1.00", "  "] ∧
-    BiotiteModel.Gen.C07Logic.alignRule = ["len(elem)==1andlen(atm)<4", " {}"] ∧
-    BiotiteModel.Gen.C07Logic.chargeText = ["charge>0", "str(np.abs(charge))+'+'", "charge<0", "str(np.abs(charge))+'-'", "''"] ∧
+    BiotiteModel.Gen.C07Logic.alignRule = ["len(x0)==1 and len(x1)<4", " {}"] ∧
+    BiotiteModel.Gen.C07Logic.chargeText = ["x0>0", "str(np.abs(x0))+'+'", "x0<0", "str(np.abs(x0))+'-'", "''"] ∧
     BiotiteModel.Gen.C07Logic.isStack = "coords.shape[0]>1" ∧
     BiotiteModel.Gen.C07Logic.endmdl = "ENDMDL" ∧
-    BiotiteModel.Gen.C07Logic.carriable = ["np.isin(bond_array[:,0],hetero_indices)", "np.isin(bond_array[:,1],hetero_indices)", "array.res_id[bond_array[:,0]]!=array.res_id[bond_array[:,1]]", "array.chain_id[bond_array[:,0]]!=array.chain_id[bond_array[:,1]]"] ∧
+    BiotiteModel.Gen.C07Logic.carriable = ["np.isin(x0[:,0],x1)", "np.isin(x0[:,1],x1)", "array.res_id[x0[:,0]]!=array.res_id[x0[:,1]]", "array.chain_id[x0[:,0]]!=array.chain_id[x0[:,1]]"] ∧
     BiotiteModel.Gen.C07Logic.heteroIndices = "np.where(array.hetero&~filter_solvent(array))[0]" ∧
-    BiotiteModel.Gen.C07Logic.int64Casts = ["array.atom_id", "array.get_annotation(category)"] ∧
+    BiotiteModel.Gen.C07Logic.int64Casts = ["array.atom_id", "array.get_annotation(x0)"] ∧
     BiotiteModel.Gen.C07Logic.solventList = ["HOH", "SOL"] ∧
     BiotiteModel.Gen.C07Logic.conectPerRecord = 4 ∧
-    BiotiteModel.Gen.C07Logic.setBondsArgs = ["BondList(array.array_length(),bond_array)", "pdb_atom_id"] ∧
+    BiotiteModel.Gen.C07Logic.setBondsArgs = ["BondList(array.array_length(),x0)", "x1"] ∧
     BiotiteModel.Gen.C07Logic.conectParts = [["CONECT", "{>5}"], ["{>5}"]] ∧
     -- the model at the boundaries these literals decide
     wrapId 99999 0 = 0 ∧ wrapId 99999 1 = 1 ∧ wrapId 99999 99999 = 99999 ∧ wrapId 99999 100000 = 1 ∧ wrapId 99999 (-5) = -5 ∧
@@ -800,21 +800,22 @@ their order, the record filters, the "no altloc" ids, the occupancy loop (`highe
 theorem C07_gen_reader_logic :
     BiotiteModel.Gen.C07Logic.prefixes = [("index", ["ATOM|HETATM", "MODEL"]), ("get_structure", ["CRYST1"]), ("get_bonds", ["CONECT"])] ∧
     BiotiteModel.Gen.C07Logic.padWidth = 80 ∧
-    BiotiteModel.Gen.C07Logic.heteroTest = ["Eq", "HETATM"] ∧
+    BiotiteModel.Gen.C07Logic.heteroTest = ["Eq", "HETATM", "slice(0,6)"] ∧
     BiotiteModel.Gen.C07Logic.chargeSigns = "+-" ∧
-    BiotiteModel.Gen.C07Logic.chargeBlank = ["charge=='  '", "0"] ∧
+    BiotiteModel.Gen.C07Logic.chargeBlank = ["Eq", "  ", "0"] ∧
     BiotiteModel.Gen.C07Logic.chargeReversed = "::-1" ∧
     BiotiteModel.Gen.C07Logic.conectRange = [11, 31, 5] ∧
     BiotiteModel.Gen.C07Logic.conectSlices = [["6", "11"], ["i", "i+5"]] ∧
     BiotiteModel.Gen.C07Logic.bondMapInit = "-1" ∧
     BiotiteModel.Gen.C07Logic.altlocModes = ["occupancy", "first", "all"] ∧
     BiotiteModel.Gen.C07Logic.extraFields = ["atom_id", "charge", "occupancy", "b_factor"] ∧
-    BiotiteModel.Gen.C07Logic.modelIndex = ["model==0", "model<-last_model", "model<last_model", "model==last_model", "last_model+model+1ifmodel<0elsemodel"] ∧
-    BiotiteModel.Gen.C07Logic.modelFilters = ["(self._atom_line_i>=self._model_start_i[model-1])&(self._atom_line_i<self._model_start_i[model])", "self._atom_line_i>=self._model_start_i[model-1]"] ∧
+    BiotiteModel.Gen.C07Logic.modelIndex = ["x0==0", "x0<-x1", "x0<x1", "x0==x1"] ∧
+    BiotiteModel.Gen.C07Logic.modelRebind = ["x0+x1+1 if x1<0 else x1"] ∧
+    BiotiteModel.Gen.C07Logic.modelFilters = ["self.p0<self.p1[x0]", "self.p0>=self.p1[x0-1]"] ∧
     BiotiteModel.Gen.C07Logic.altlocNoneFirst = [".", "?", " ", ""] ∧
     BiotiteModel.Gen.C07Logic.altlocNoneOccupancy = [".", "?", " ", ""] ∧
-    BiotiteModel.Gen.C07Logic.altlocBest = ["-1.0", "Gt:highest"] ∧
-    BiotiteModel.Gen.C07Logic.altlocIdOrder = "sorted(set(letter_altloc_ids))" ∧
+    BiotiteModel.Gen.C07Logic.altlocBest = ["-1.0", "Gt"] ∧
+    BiotiteModel.Gen.C07Logic.altlocIdOrder = "sorted(set(ids))" ∧
     noAlt '.' = true ∧ noAlt '?' = true ∧ noAlt ' ' = true ∧ noAlt 'A' = false ∧ noAlt '1' = false ∧
     (bestId [] []).1 = -100 ∧ sortedIds ['b', 'A', 'b', 'a'] = ['A', 'a', 'b'] ∧
     parseCharge "1+".toList = some (.ok 1) ∧ parseCharge "-2".toList = some (.ok (-2)) ∧ parseCharge "  ".toList = some (.ok 0) ∧
@@ -824,9 +825,9 @@ theorem C07_gen_reader_logic :
 /-- the compatibility check: every guard in source order (comparison operators and bounds included), the two tests of
 `_check_number_columns` (finiteness first, then `n_required > n_columns`), and the exception class of every `raise` -/
 theorem C07_gen_check_logic :
-    BiotiteModel.Gen.C07Logic.checkGuards = ["hybrid36", "'atom_id'inannot_categories", "max_atom_id>max_atoms", "(array.res_id>max_residues).any()", "nothybrid36", "np.isnan(array.coord).any()", "any([len(name)>1fornameinarray.chain_id])", "any([len(name)>3fornameinarray.res_name])", "any([len(name)>4fornameinarray.atom_name])", "any([len(code)>1forcodeinarray.ins_code])", "any([len(element)>2forelementinarray.element])", "'b_factor'inannot_categories", "'occupancy'inannot_categories", "array.boxisnotNone", "'charge'inannot_categories", "min_atom_id<-9999", "(array.res_id<-999).any()", "n_charge_digits>1"] ∧
-    BiotiteModel.Gen.C07Logic.numberCheck = ["notnp.isfinite(values).all()", "n_required>n_columns"] ∧
-    BiotiteModel.Gen.C07Logic.raises = [("_check_pdb_compatibility", ["BadStructureError"]), ("_check_number_columns", ["BadStructureError"]), ("_get_atom_record_indices_for_model", ["ValueError"]), ("_get_model_length", ["InvalidFileError"]), ("_get_bonds", ["InvalidFileError"]), ("get_structure", ["ValueError"])] := by
+    BiotiteModel.Gen.C07Logic.checkGuards = ["x0", "'atom_id'in x1", "x2>x3", "(x4.res_id>x5).any()", "not x0", "x6<-9999", "(x4.res_id<-999).any()", "np.isnan(x4.coord).any()", "'b_factor'in x1", "'occupancy'in x1", "x4.box is not None", "len(f'{x7:>9.3f}')>9", "len(f'{x8:>7.2f}')>7", "'charge'in x1", "x9>1"] ∧
+    BiotiteModel.Gen.C07Logic.numberCheck = ["not np.isfinite(x0).all()", "x1>x2"] ∧
+    BiotiteModel.Gen.C07Logic.raises = [("check", ["BadStructureError"]), ("numcheck", ["BadStructureError"]), ("select", ["ValueError"]), ("model_length", ["InvalidFileError"]), ("get_bonds", ["InvalidFileError"]), ("get_structure", ["ValueError"])] := by
   decide
 
 /-- default argument values at both entry levels (method and package function) and what the wrappers forward -/
@@ -840,7 +841,7 @@ theorem C07_gen_defaults :
 theorem C07_gen_h36_logic :
     BiotiteModel.Gen.C07Logic.pyx_encode_hybrid36 = ["def encode_hybrid36(int number, unsigned int length):", "if number < 0:", "raise ValueError(", ")", "if length < 1:", "raise ValueError(", ")", "cdef int num = number", "if num < 10**length:", "return str(num)", "num -= 10**length", "if num < 26 * 36**(length-1):", "num += 10 * 36**(length-1)", "return _encode_base36(num, length, _ASCII_FIRST_LETTER_UPPER)", "num -= 26 * 36**(length-1)", "if num < 26 * 36**(length-1):", "num += 10 * 36**(length-1)", "return _encode_base36(num, length, _ASCII_FIRST_LETTER_LOWER)", "raise ValueError(", ")"] ∧
     BiotiteModel.Gen.C07Logic.pyx_encode_base36 = ["cdef str _encode_base36(int number, unsigned int length,", "unsigned int ascii_letter_offset):", "cdef unsigned char ascii_char", "cdef int remaining", "cdef int last", "cdef bytearray char_array = bytearray(length)", "cdef unsigned char[:] char_array_v = char_array", "cdef int i = char_array_v.shape[0] - 1", "while i >= 0:", "remaining = number // 36", "last = number - remaining * 36", "if last < 10:", "char_array_v[i] = last + _ASCII_FIRST_NUMBER", "else:", "char_array_v[i] = last + ascii_letter_offset - 10", "number = remaining", "i -= 1", "return char_array.decode(\"ascii\")"] ∧
-    BiotiteModel.Gen.C07Logic.pyx_decode_hybrid36 = ["def decode_hybrid36(str string):", "cdef int base_value", "cdef unsigned int length", "try:", "return int(string)", "except ValueError:", "pass", "cdef bytes char_array = string.strip().encode(\"ascii\")", "cdef const unsigned char[:] char_array_v = char_array", "length = char_array_v.shape[0]", "if length == 0:", "raise ValueError(\"Cannot parse empty string into integer\")", "if char_array_v[0] >= _ASCII_FIRST_LETTER_UPPER \\", "and char_array_v[0] <= _ASCII_LAST_LETTER_UPPER:", "base_value = _decode_base36(", "char_array_v, _ASCII_FIRST_LETTER_UPPER", ")", "return base_value - 10 * 36**(length-1) + 10**length", "elif char_array_v[0] >= _ASCII_FIRST_LETTER_LOWER \\", "and char_array_v[0] <= _ASCII_LAST_LETTER_LOWER:", "base_value = _decode_base36(", "char_array_v, _ASCII_FIRST_LETTER_LOWER", ")", "return base_value + (26-10) * 36**(length-1) + 10**length", "else:", "raise ValueError(", ")"] ∧
+    BiotiteModel.Gen.C07Logic.pyx_decode_hybrid36 = ["def decode_hybrid36(str string):", "cdef int base_value", "cdef unsigned int length", "try:", "return int(string)", "except ValueError:", "pass", "cdef bytes char_array = string.strip().encode(\"ascii\")", "cdef const unsigned char[:] char_array_v = char_array", "length = char_array_v.shape[0]", "if length == 0:", "raise ValueError(", "if char_array_v[0] >= _ASCII_FIRST_LETTER_UPPER \\", "and char_array_v[0] <= _ASCII_LAST_LETTER_UPPER:", "base_value = _decode_base36(", "char_array_v, _ASCII_FIRST_LETTER_UPPER", ")", "return base_value - 10 * 36**(length-1) + 10**length", "elif char_array_v[0] >= _ASCII_FIRST_LETTER_LOWER \\", "and char_array_v[0] <= _ASCII_LAST_LETTER_LOWER:", "base_value = _decode_base36(", "char_array_v, _ASCII_FIRST_LETTER_LOWER", ")", "return base_value + (26-10) * 36**(length-1) + 10**length", "else:", "raise ValueError(", ")"] ∧
     BiotiteModel.Gen.C07Logic.pyx_decode_base36 = ["cdef int _decode_base36(const unsigned char[:] char_array_v,", "unsigned int ascii_letter_offset):", "cdef int i", "cdef int number = 0", "cdef unsigned char ascii_code", "for i in range(char_array_v.shape[0]):", "number *= 36", "ascii_code = char_array_v[i]", "if ascii_code <= _ASCII_LAST_NUMBER:", "number += ascii_code - _ASCII_FIRST_NUMBER", "else:", "number += ascii_code - ascii_letter_offset + 10", "return number"] ∧
     BiotiteModel.Gen.C07Logic.pyx_max_hybrid36_number = ["def max_hybrid36_number(length):", "return 10**length - 1 + 2 * (26 * 36**(length-1))"] ∧
     encodeH36 (-1) 4 = .error .valueError ∧ encodeH36 5 0 = .error .valueError ∧ encodeH36 9999 4 = .ok "9999".toList ∧
